@@ -20,7 +20,8 @@ CONSTANTS Prop,        \* "C31" | "C32" | "C33"
           NameForms,   \* subset of {"lower", "upper"}
           Deltas,      \* channel offsets (milli-units) applied to one channel of every named / short-hex colour
           Amounts,     \* C32: amounts (milli-percent)
-          Fns,         \* C33: functions applied before printing ("id" = none)
+          Fns,         \* C33: functions applied before printing ("id" = none), every colour
+          FnsNamed,    \* C33: further functions applied to the named colours only
           Styles       \* C33: output styles
 
 VARIABLES vec, seed, phase
@@ -36,6 +37,8 @@ HueGridFull  == {-360000, -30000, 360000, 390000} \cup {30000 * i : i \in 0..11}
 HueGridIn    == {30000 * i : i \in 0..11}
 AlphaGridFull == {-1, 0, 500000, 1000000, 1500000}
 AlphaGridIn   == {-1, 0, 500000}
+AlphaGridOpaqueHalf == {-1, 500000}
+HueGridC33   == {-30000, 360000} \cup {30000 * i : i \in 0..11}
 DeltasPM     == {-1000, -400, 400, 1000}
 
 In(ctor, form, args, alpha) == [ctor |-> ctor, form |-> form, args |-> args, alpha |-> alpha]
@@ -73,7 +76,8 @@ ColoursOf(sd) ==
 InputsOf(sd) ==
   CASE Prop = "C31" -> {[c |-> c, amt |-> 0, fn |-> "id", style |-> "expanded"] : c \in ColoursOf(sd)}
     [] Prop = "C32" -> {[c |-> c, amt |-> m, fn |-> "id", style |-> "expanded"] : c \in ColoursOf(sd), m \in Amounts}
-    [] Prop = "C33" -> {[c |-> c, amt |-> 0, fn |-> f, style |-> s] : c \in ColoursOf(sd), f \in Fns, s \in Styles}
+    [] Prop = "C33" -> {[c |-> c, amt |-> 0, fn |-> f, style |-> s] :
+                           c \in ColoursOf(sd), f \in Fns \cup (IF sd[1] = "name" THEN FnsNamed ELSE {}), s \in Styles}
 
 Blank == [c |-> In("transparent", "lower", <<>>, -1), amt |-> 0, fn |-> "id", style |-> "expanded"]
 Init == vec = Blank /\ seed = <<"none", <<>> >> /\ phase = "seed"
